@@ -192,3 +192,84 @@ def is_lock_ctor(ctx: Ctx, f: FuncInfo, e: ast.AST, depth: int = 0) -> bool:
         rets = [r for r in ast.walk(h.node) if isinstance(r, ast.Return)]
         return bool(rets) and all(r.value is not None and is_lock_ctor(ctx, h, r.value, depth + 1) for r in rets)
     return False
+
+
+DECODE_ATTRS = ('text_decode', 'decode', 'raw_decode', 'get_atomic_value')
+
+
+def _is_decode_call(e: ast.AST) -> bool:
+    return isinstance(e, ast.Call) and isinstance(e.func, ast.Attribute) and e.func.attr in DECODE_ATTRS
+
+
+def fixed_value_space_rule(ctx: Ctx, rule: str, f: FuncInfo, what: str, value_names: tuple[str, ...]) -> None:
+    """The report "has/must have the fixed value" is guarded by a comparison of *decoded* values.
+
+    Accepted conjuncts/guards that mention self.fixed: a value-space comparison (decode(x) != decode(self.fixed) or
+    not strictly_equal(decode(x), decode(self.fixed))), the lexical shortcut (x == / != self.fixed: identical text is
+    identical value), and presence tests (self.fixed is [not] None, not x).  Anything else comparing the fixed value
+    (normalised strings, raw text only) is a violation."""
+    g = cfg_of(ctx, f)
+    cd = cd_of(ctx, f)
+    reports = []
+    rd = g.reaching_defs()
+    for n, c in call_nodes(g, lambda c: is_reporter_call(c)):
+        # the message (reaching definition of the 3rd argument) mentions 'fixed value'
+        msg_arg = c.args[2] if len(c.args) > 2 else None
+        txt = ''
+        if isinstance(msg_arg, ast.Name):
+            defs = rd[n].get(msg_arg.id, set())
+            txts = [text(d.ast.value) for d in defs if d.ast is not None and isinstance(d.ast, ast.Assign)]
+            if txts and all('fixed value' in t for t in txts):
+                txt = txts[0]
+        elif msg_arg is not None:
+            txt = text(msg_arg)
+        if 'fixed value' in txt and 'nil' not in txt:
+            reports.append((n, c))
+    ctx.floor(rule, f'fixed-value reports in {f.qualname}', len(reports), 1)
+    for n, c in reports:
+        value_cmp = 0
+        bad = []
+        for b, lab in cd[n]:
+            if b.kind != 'if':
+                continue
+            t = b.ast.test
+            conj = t.values if isinstance(t, ast.BoolOp) and isinstance(t.op, ast.And) and lab == 'T' else [t]
+            for e in conj:
+                if 'self.fixed' not in text(e) and 'fixed' not in text(e):
+                    continue
+                inner = e
+                neg = False
+                while isinstance(inner, ast.UnaryOp) and isinstance(inner.op, ast.Not):
+                    inner = inner.operand
+                    neg = not neg
+                if isinstance(inner, ast.Call) and text(inner.func) == 'strictly_equal' and len(inner.args) == 2:
+                    if all(_is_decode_call(a) for a in inner.args) and any('self.fixed' in text(a) for a in inner.args):
+                        value_cmp += 1
+                    else:
+                        bad.append(text(e))
+                elif isinstance(inner, ast.Compare) and len(inner.ops) == 1:
+                    l, r = inner.left, inner.comparators[0]
+                    if isinstance(r, ast.Constant) and r.value is None:
+                        continue            # presence test
+                    if all(_is_decode_call(a) for a in (l, r)):
+                        value_cmp += 1
+                    elif {text(l), text(r)} & {'self.fixed'} and ({text(l), text(r)} - {'self.fixed'}) <= set(value_names):
+                        continue            # lexical shortcut on the raw text
+                    else:
+                        bad.append(text(e))
+                elif isinstance(inner, (ast.Name, ast.Attribute)):
+                    continue
+                elif isinstance(inner, ast.BoolOp):
+                    # mixed forms (complex content: children / text present): not a value comparison, reviewed per call site
+                    continue
+                else:
+                    bad.append(text(e))
+        if value_cmp == 0 and not bad and any('len(obj) > 0' in text(b.ast.test) for b, lab in cd[n] if b.kind == 'if'):
+            ctx.ob(rule, f'{what}: fixed value of a complex (mixed) content is compared as text (its value space is string)', f.loc(c), True,
+                   'reviewed: complex content has no simple type to decode with', key=f'{f.qualname}|fixed-complex-content', nontrivial=False)
+            continue
+        ok = value_cmp >= 1 and not bad
+        ctx.ob(rule, f'{what}: a present value is compared with the fixed value in the value space of the type', f.loc(c), ok,
+               '' if ok else (f'comparison `{bad[0]}` is not between decoded values' if bad else 'no comparison of decoded values guards the report: '
+                              'lexically different spellings of the same value (1.0 / 1.00, true / 1) would be rejected'),
+               key=f'{f.qualname}|fixed-value-space|{text(c.args[2]) if len(c.args) > 2 else ""}')
